@@ -26,3 +26,27 @@ chk('C18', 'exploration',
     'Complete enumeration of three finite spaces: (1) the five shipped curves on a parameter alphabet (break points, +-1 ulp, dyadic points, all in-piece pairs) for piece lengths, arc length, continuity, closedness, eval vs piece; (2) every simple rectilinear lattice polygon in {0..3}^2 with <= 6/8 vertices, all start vertices and orientations, through the polygon constructor (reject or satisfy everything); (3) MeshParametrized for every curve x 8 time grids (1..6 slabs, irregular) x 3 space grids x every leaf-set-distinct state of the bisection BFS to depth 1/2: piece identity of every element, >=3 elements per slab, two elements never touch twice.',
     'Continuous parameters are represented by the alphabet; polygons by the lattice family; mesh histories by the depth bound.',
     'exhaustive enumeration of bounded configuration spaces and BFS over bisection histories on the real objects', 'DESIGN.md 4/C18', 'E1-mesh-explorer')
+ENGINES += [
+ {'name': 'E4-oracles', 'path': 'mc/oracle.py', 'serves_properties': ['C01', 'C04', 'C07', 'C11', 'C12', 'C13', 'C03'],
+  'kind_free_text': 'independent reference integrals (analytic double time integral + graded Gauss in space), validated against mpmath'},
+ {'name': 'E5-universe', 'path': 'mc/universe.py', 'serves_properties': ['C01', 'C04', 'C07', 'C11', 'C12', 'C13'],
+  'kind_free_text': 'complete dyadic rectangle universes R(Lt,Lx) built by real bisection; geometric class labelling; vacuity guards'},
+ {'name': 'tables', 'path': 'mc/tab_rules.py', 'serves_properties': ['C05', 'C14', 'C15'],
+  'kind_free_text': 'ast parser of the rule tables with exact rational literals and exact moments; rational closed forms for the seminorms'},
+]
+chk('C01', 'model_checking',
+    'Layer A: the panel-splitting recursion SingleLayerOperator.__integrate is executed, with recording proxies for its six rule objects, on every ordered pair of dyadic parameter intervals up to level 3 (quick) / 5 (thorough) under every root of the five curves; each execution must terminate, tile the integration rectangle exactly with its terminal panels and place every rule on the geometric singularity of its panel; bilform variable order observed through recording parametrisations. Layer B: every ordered pair of the dyadic rectangle universes (real elements; five curves, four time grids; aspect <= 32), both switch values, compared with the independent entry oracle at the property tolerance 1e-7*sqrt(D D\'); class histogram with vacuity guard.',
+    'Trusted: mc/oracle.py (validated to 4e-13 against 25-digit mpmath on straight pieces), scipy exp1; universes bounded by (Lt,Lx) per evidence.',
+    'exhaustive exploration of the recursion state graph of the real code with recording proxies (layer A) + exhaustive enumeration of the dyadic pair universe against a reference model (layer B)', 'DESIGN.md 4/C01', 'E5-universe')
+chk('C05', 'exploration',
+    'Complete enumeration of the finite space: all 103 table keys of the seven families x every function of the advertised class, in 100-digit interval arithmetic on the literals parsed from the source text (1e-30) and on the doubles (1e-13); structure clauses; every exported (degree,degree) pair; every scheme constructor x every degree mapping to a present key.',
+    'Trusted: mpmath.iv, the ast parser (cross-checked: parsed literals rounded to double equal what the real functions return). Known finding F7 (gauss_log N=15,31 source precision) listed in known_findings.json.',
+    'exhaustive enumeration of a finite table space with interval arithmetic', 'DESIGN.md 4/C05', 'tables')
+chk('C14', 'exploration',
+    'All orders 1..21 (23 for H^1/4) x 18 intervals x the polynomial set {x^i, x^i+x^j} against exact rational closed forms; non-negativity, constants, quadratic scaling, translation, curve-aware == flat on rigid placements, two-piece variant on every corner of UnitSquare and LShape against a graded reference.',
+    'Tolerances as in the property where doubles can represent the data; an explicit round-off allowance for offset >> length (counted in the evidence); corner clause with an a-priori Gauss envelope (see DESIGN).',
+    'exhaustive enumeration of a finite configuration space against exact closed forms', 'DESIGN.md 4/C14', 'tables')
+chk('C15', 'exploration',
+    '115 base rules x every derived-scheme constructor x mirror words x box alphabet x all monomials up to the stated exactness (5.3 M comparisons quick, 17.9 M thorough): weight sums, monomial exactness, mirror involution, symmetric vs non-symmetric Duffy, monotone log-convergence to closed forms.',
+    'Trusted: exact monomial integrals; mirror involution demanded to 1 ulp on the mirrored coordinate (bitwise is false on correct code because 1-(1-p) != p in binary floating point).',
+    'exhaustive enumeration of a finite configuration space against exact monomial integrals', 'DESIGN.md 4/C15', 'tables')
